@@ -19,7 +19,7 @@ for h in ("h_varint32", "h_varint64", "h_varint_decode_any", "h_fixed"):
         replay="c16")
 
 # ---------------------------------------------------------------- C19 open arbitrary bytes
-add("c19_reader_open", ["C19", "C18"], ["tu/reader_open.c", "$REPO/mtbl/metadata.c", "$REPO/mtbl/varint.c", "$REPO/mtbl/fixed.c",
+add("c19_reader_open", ["C19"], ["tu/reader_open.c", "$REPO/mtbl/metadata.c", "$REPO/mtbl/varint.c", "$REPO/mtbl/fixed.c",
     "$REPO/mtbl/source.c", "$REPO/mtbl/iter.c"], "h_reader_open",
     unwind=12, object_bits=10, safety="P", strength="U", timeout=900, slice=100, replay="c19",
     functions=["mtbl_reader_init", "mtbl_reader_init_fd", "reader_init_madvise", "metadata_read", "mtbl_varint_decode64",
@@ -326,3 +326,7 @@ for fn in ("reload", "reload_now"):
         functions=[f"mtbl_fileset_{fn}"],
         assumptions=["my_fileset_reload replaced by its contract over a ghost generation (bumped exactly when a table is loaded or unloaded, as fs_load / fs_unload count; own check: myfs_reload_step), fs_reinit_merger by 'merger built from the current generation' (own check: fs_*_step, bounded in the number of tables)",
                      "monotonic clock whose value differs from every timestamp handed out before (a timestamp identifies a generation)", "handle invariant H assumed on entry and re-established: every history of reloads through any handle"])
+# ---------------------------------------------------------------- C18: the by-name open wrapper (descriptor balance), DFCC
+add("rd_init_dfcc", ["C18"], ["tu/reader_init_dfcc.c"], "h_reader_init_dfcc", mode="dfcc", enforce="mtbl_reader_init/mtbl_reader_init__spec",
+    replace=["open/open__cap", "close/close__cap", "mtbl_reader_init_fd/mtbl_reader_init_fd__cap"], unwind=8, timeout=300, strength="U", functions=["mtbl_reader_init"],
+    assumptions=["open / close by their POSIX contracts with a descriptor counter; mtbl_reader_init_fd replaced by 'returns NULL or a reader, does not close the caller's descriptor' (its memory safety: c19_reader_open; its mapping balance on refusal paths is not decided)"])
